@@ -284,6 +284,11 @@ def _gen_alleles(rng, gene, opts):
         # a right fusion may carry its own core variant in the retained part
         alleles.append({"name": f"{num}.001", "kind": "rfusion", "brk": brk, "vars": []})
         num += 1
+    if opts.get("custom_del"):
+        k = rng.randint(1, 2)
+        regs = rng.sample(inner, min(k, len(inner)))
+        alleles.append({"name": f"{num}.001", "kind": "custom", "regions": sorted(regs), "vars": []})
+        num += 1
     # a haplotype cannot carry two variants at one position (multi-allelic sites)
     for a in alleles:
         seen_pos, keep = set(), []
@@ -422,6 +427,8 @@ def gene_yaml(world, gene):
             muts.append(f"[{gene['pseudo']}, '{a['brk']}-']")
         elif a["kind"] == "rfusion":
             muts.append(f"[{gene['pseudo']}, '{a['brk']}+']")
+        elif a["kind"] == "custom":
+            muts.append(f"[{name}, 'deletion:{','.join(a['regions'])}']")
         for vid in a["vars"]:
             v = gene["variants"][vid]
             p, op = _refnot(gene, v)
@@ -722,7 +729,9 @@ def sample_reads(world, sample):
                     flags = {r: int(pcn[r] > c) for r in pcn}
                     if not any(flags.values()):
                         continue
-                    cols = _haplotype(contig, z0, z1, [])
+                    # optional private variants of this pseudogene copy (real pseudogenes are polymorphic too)
+                    pv = [v for v in unit.get("pseudo_vars", []) if v.get("copy", 0) == c]
+                    cols = _haplotype(contig, z0, z1, pv)
                     present = _intervals(gene["pregions"], flags, M, M)
                     _tile(cols, L, step, phase_rng.randint(0, step - 1), present,
                           f"{gene['name']}u{ui}p{c}", reads)
@@ -739,10 +748,27 @@ def sample_reads(world, sample):
                  if not (a <= r[0] < b and r[3].startswith(tagp) and trng.random() < th["p"])]
     # neutral region: two copies
     c0, c1 = world["neutral"]
+    # reads of the neutral locus normally cover the declared region with a margin; a world may say that
+    # they cover less than the region (positions of the region without any read)
+    z0, z1 = world.get("neutral_zone") or [c0 - M, c1 + M]
     for c in range(sample.get("neutral_copies", 2)):
-        cols = _haplotype(contig, c0 - M, c1 + M, [])
-        _tile(cols, L, step, phase_rng.randint(0, step - 1), [[c0 - M, c1 + M]],
+        cols = _haplotype(contig, z0, z1, [])
+        _tile(cols, L, step, phase_rng.randint(0, step - 1), [[z0, z1]],
               f"n{c}", reads)
+    # sequencing-style insertions: a fraction of the reads carries a short inserted run
+    if sample.get("random_ins"):
+        irng = random.Random(f"{sample.get('phase_seed', 0)}:ins")
+        out = []
+        for rs, ops_, seq, nm in reads:
+            if irng.random() < sample["random_ins"] and len(ops_) == 1 and ops_[0][0] == 0 and ops_[0][1] > 30:
+                n = ops_[0][1]
+                at = irng.randint(10, n - 10)
+                k = irng.randint(1, 2)
+                ins = "".join(irng.choice("ACGT") for _ in range(k))
+                out.append((rs, [(0, at), (1, k), (0, n - at)], seq[:at] + ins + seq[at:], nm))
+            else:
+                out.append((rs, ops_, seq, nm))
+        reads = out
     # aligner-style soft clips: a fraction of the reads gets its first / last bases clipped
     if sample.get("softclip"):
         srng = random.Random(f"{sample.get('phase_seed', 0)}:softclip")
